@@ -28,7 +28,7 @@ m = {
  "hooks": {
    "guard": "verif",
    "enable": "harness files carry //go:build verif and are injected by go/packages Overlay (engine) and go test -overlay -tags verif (native replay); nothing is written into /repo",
-   "baseline_off_cmd": "cd /repo && go test -vet=off -count=1 ./... && cd /repo/staging/src/github.com/kubewharf/apiserver-runtime && go test -vet=off -count=1 ./...",
+   "baseline_off_cmd": "for m in . staging/src/github.com/kubewharf/apiserver-runtime; do (cd /repo/$m && GOFLAGS=-mod=mod GOPROXY=off go test -json -vet=off -count=1 -timeout 25m ./...); done",
    "source_commits": [],
    "add_only": True,
  },
